@@ -109,6 +109,20 @@ Proof.
 Qed.
 Print Assumptions C19_history_len_getitem.
 
+(* histories compose: a concatenated history is trigger-free exactly when its first
+   part is and the second part is from the list the first part produces; states and
+   answers split at the seam - so the theorem above applies piecewise *)
+Theorem C19_history_composes : forall a b s xs,
+  (kf_run xs (a ++ b) = 0%N <-> kf_run xs a = 0%N /\ kf_run (lsteps xs a) b = 0%N) /\
+  c_steps s (a ++ b) = c_steps (c_steps s a) b /\
+  lsteps xs (a ++ b) = lsteps (lsteps xs a) b /\
+  c_trace s (a ++ b) = c_trace s a ++ c_trace (c_steps s a) b.
+Proof.
+  intros a b s xs. split; [apply kf_run_app|]. split; [apply c_steps_app|].
+  split; [apply lsteps_app|apply c_trace_app].
+Qed.
+Print Assumptions C19_history_composes.
+
 (* non-vacuity of the two: the initial state of a concrete case with noise meets
    Inv (C19_init_represents) and this history is trigger-free and changes the list *)
 Example C19_history_nonvacuous :
